@@ -24,6 +24,7 @@ META = {
 }
 META["explanation"] += ' R10.9 the constructors number the initial items with enumerate() applied below any filter (positions in the source, not in the filtered output).'
 META["explanation"] += " R10.4 also checks the order of the two effects (the new item's entry is recorded after the shift, or outside its range) and that a path bypassing the shift loop has established `last kept index < index` strictly (path-sensitive facts)."
+META["explanation"] += " R10.10 filter mirror rule: on every path of the single-item handlers the change of the kept-index list's length equals the effect of the returned diff (entry added <=> PushFront / PushBack / Insert, removed <=> PopFront / PopBack / Remove, unchanged <=> Set or nothing)."
 
 PAIR = lambda n: re.sub(r"_filter(_map)?$", "", n or "")
 
@@ -96,6 +97,7 @@ def run(ctx):
     r10_5(ctx, handlers)
     r10_7(ctx)
     r10_8(ctx)
+    r10_10(ctx, handlers)
     # R10.6
     for f, c, table, multi in ds:
         b = f.built
@@ -291,7 +293,7 @@ def r10_4(ctx, handlers):
             # position moves too)
             from .c11 import loop_entry
             site = loop_entry(b, loc[0])
-            if v in ("Insert", "PushFront"):
+            if v in ("Insert", "PushFront", "Remove", "PopFront"):
                 verdict_bp = bypass_guard(ctx, h, b, site, v)
                 if verdict_bp:
                     probs.append(verdict_bp)
@@ -447,6 +449,12 @@ def bypass_guard(ctx, h, b, site, v):
                 continue
             if conds.cmp_holds(facts, "Lt", is_last, is_idx):
                 continue
+            if v == "Remove" and conds.cmp_holds(facts, "Le", is_last, is_idx):
+                continue   # the item at the removed index leaves, nothing behind it
+            if v in ("Remove", "PopFront"):
+                # the kept list may also have just lost its only entry; anything else is not recognised
+                ctx.undecided("R10.4", h, "index-shift-bypass:%s" % v, b.line_at((path[-1], 0)), "a path bypasses the shift loop under a guard that is not recognised")
+                return None
             if conds.cmp_holds(facts, "Le", is_last, is_idx):
                 return "a path returns without shifting (bb%d bypassed) after testing only `last kept index <= index`: when the last kept item sits exactly at the insertion index it moves one position up but keeps its old recorded index" % site
             if v == "PushFront":
@@ -455,3 +463,74 @@ def bypass_guard(ctx, h, b, site, v):
             ctx.undecided("R10.4", h, "index-shift-bypass:%s" % v, b.line_at((path[-1], 0)), "a path bypasses the shift loop under a guard that is not recognised")
             return None
     return None
+
+
+KEPT_GROW = r"VecDeque::<.*>::(push_back|push_front|insert)$"
+KEPT_SHRINK = r"VecDeque::<.*>::(pop_back|pop_front|remove)$"
+KEPT_OTHER = r"VecDeque::<.*>::(clear|truncate|drain|retain|retain_mut|split_off|append|extend|resize)$"
+
+
+def r10_10(ctx, handlers):
+    """filter mirror rule: the filtered view has exactly one item per entry of the kept-index list, so on every path of the
+    single-item handlers (PushFront, PushBack, PopFront, PopBack, Insert, Set, Remove) the change of the list's length equals
+    the effect of the diff the handler returns: an entry added <=> PushFront / PushBack / Insert, an entry removed <=> PopFront /
+    PopBack / Remove, unchanged <=> Set or nothing. (A handler that emits Remove but keeps the entry, or records an entry for an
+    item it does not announce, leaves view and bookkeeping one item apart for good.)"""
+    F = ctx.facts
+    n = 0
+    WANT = {"PushFront": 1, "PushBack": 1, "Insert": 1, "PopFront": -1, "PopBack": -1, "Remove": -1, "Set": 0, None: 0}
+    for key, (h, vs) in handlers.items():
+        if not (set(vs) & {"PushFront", "PushBack", "PopFront", "PopBack", "Insert", "Set", "Remove"}):
+            continue
+        b = inl(F, h, desugar=True, tag="r10.10") or h.built
+        n += 1
+        is_kept = lambda t: t["args"] and mentions_field(b.expr_of_op(t["args"][0]), "filtered_indices")
+        delta = {}
+        unknown = None
+        for blk, t in b.calls(KEPT_GROW):
+            if is_kept(t):
+                delta[blk] = 1
+        for blk, t in b.calls(KEPT_SHRINK):
+            if is_kept(t):
+                delta[blk] = -1
+        for blk, t in b.calls(KEPT_OTHER):
+            if is_kept(t):
+                unknown = (t.get("callee") or "").split("::")[-1]
+        aggs = {}
+        for loc, s_ in b.iter_stmts():
+            if s_["k"] == "assign" and s_["rv"]["k"] == "agg" and (s_["rv"].get("adt") or "").endswith("::VectorDiff"):
+                aggs.setdefault(loc[0], []).append(s_["rv"]["variant"])
+        where = h.loc()
+        if unknown:
+            ctx.undecided("R10.10", h, "kept-list-mirrors-the-emitted-diff", where, "the handler also applies `%s` to the kept-index list" % unknown)
+            continue
+        probs = []
+        undec = None
+        for r in b.return_blocks():
+            for path in paths_between(b, 0, r, limit=400):
+                d = sum(delta.get(blk, 0) for blk in path)
+                vs_on = [v_ for blk in path for v_ in aggs.get(blk, [])]
+                # infeasible combinations of desugared switches are pruned with the path-sensitive facts
+                feasible = True
+                for i in range(len(path) - 1):
+                    if any(fct[0] == "infeasible" for fct in conds.path_edge_facts(b, path, i)):
+                        feasible = False
+                        break
+                if not feasible:
+                    continue
+                if len(vs_on) > 1:
+                    undec = "several diffs are built on one path (%s)" % vs_on
+                    continue
+                v_ = vs_on[0] if vs_on else None
+                if v_ not in WANT:
+                    undec = "returns %s" % v_
+                    continue
+                if d != WANT[v_]:
+                    probs.append("a path changes the kept-index list by %+d entr%s but returns %s" % (d, "y" if abs(d) == 1 else "ies", ("`%s`" % v_) if v_ else "no diff"))
+        if probs:
+            ctx.violated("R10.10", h, "kept-list-mirrors-the-emitted-diff", where, "`%s`: %s: the filtered view and the list of kept source indices differ by one item from then on" % (h.path, sorted(set(probs))[0]))
+        elif undec:
+            ctx.undecided("R10.10", h, "kept-list-mirrors-the-emitted-diff", where, undec)
+        else:
+            ctx.holds("R10.10", h, "kept-list-mirrors-the-emitted-diff", where, "on every path the change of the kept-index list matches the returned diff")
+    ctx.floor("R10.10", n, 7)
